@@ -143,6 +143,8 @@ FIXED = [
     "model F0 Real x; Real a; Real b; Real c; equation der(x) = (a + b) * c; a = 1; b = a - (c - 2); c = -(a - b) * 2; end F0;",
     "model F1 Real x; Real a; Real b; equation der(x) = a / (b + 1) / 2; a = 2 ^ 3 ^ 1 - 1; b = -a ^ 2; end F1;".replace("2 ^ 3 ^ 1", "(2 ^ 3)"),
     "model F2 Real x; Real a; Real b; equation der(x) = a - (b - (a - b)); a = 3 * (b + 1) * (b - 1); b = 1 - 2 - 3; end F2;",
+    # symbols with two classification prefixes: a differentiated input, an output that is a state, a differentiated parameter
+    "model F3 input Real u; output Real yo; parameter Real k = 2; Real x; equation der(x) = u - x; der(u) = k; der(yo) = x; end F3;",
 ]
 
 
